@@ -196,6 +196,11 @@ def relax_cases(tier, seed):
             for it in range((2 if np_ == 1 else 4) if quick else 16):
                 n = r.randint(max(2, np_), 10 if quick else 20)
                 A = _c12.block_spd(r, n)
+                if typ == "spai0" and it % 2 == 1:
+                    # NON-symmetric diagonal blocks (D_i + [[0, (i%3+1)/2], [0, 0]]): mpi::relaxation::spai0 accumulates
+                    # math::adjoint(a_ii) = the TRANSPOSED block (repair of finding C06-spai0-no-conj); with symmetric
+                    # diagonal blocks the adjoint is invisible.  Deterministic: the random stream is left unchanged.
+                    A = [[(c, bv.bl_add(V, [[F(0), F(i % 3 + 1, 2)], [F(0), F(0)]]) if c == i else V) for c, V in rw] for i, rw in enumerate(A)]
                 p = thin_parts(r, n, np_) if it % 2 == 0 else gen.rcomposition(r, n, np_, empty_bias=0.2)
                 f, x = vecs(r, n, 2)
                 ptoks, mtoks = relax_params(r, typ, False)
